@@ -3,6 +3,7 @@
 Everything here is a *view* of the type-checked program; no rule lives in this file.
 """
 import json
+import os
 import re
 from functools import lru_cache
 
@@ -349,7 +350,7 @@ class Facts:
             doc = json.load(fh)
         self.path = path
         self.tree_hash = doc["tree_hash"]
-        self.repo = doc["repo"]
+        self.repo = os.environ.get("VERIF_REPO") or doc["repo"]
         self.bodies = {}
         self.adts = {}
         self.impls = []
